@@ -73,7 +73,21 @@ func propHash(p string) uint64 {
 // oneRun executes one simulated run. genT and schedT decide everything.
 func oneRun(t *testing.T, prop string, sc *Scenario, genT, schedT *simrt.RecTape, verbose bool) *runOut {
 	out := &runOut{Prop: prop}
-	c := sc.Gen(&Draw{T: genT})
+	gd := &Draw{T: genT}
+	c := sc.Gen(gd)
+	docVaried, docOrderer := false, false
+	if do, ok := c.(interface{ SetDocOrder(int, bool) }); ok {
+		// document order variations, drawn behind everything the generator drew: the sequenceFlow elements
+		// reversed or shuffled, or in front of the flow nodes (BPMN leaves the order of a process' elements free)
+		fo := gd.N(4) - 1
+		if fo < 0 {
+			fo = 0
+		}
+		ff := gd.N(4) == 3
+		do.SetDocOrder(fo, ff)
+		docVaried = fo > 0 || ff
+		docOrderer = true
+	}
 	if err := c.Prepare(); err != nil {
 		out.PrepErr = err.Error()
 		out.Viol = []Violation{{Clause: prop + "/harness-prepare", Detail: err.Error()}}
@@ -98,6 +112,9 @@ func oneRun(t *testing.T, prop string, sc *Scenario, genT, schedT *simrt.RecTape
 		return out
 	}
 	o := sc.Check(c, res)
+	if docOrderer {
+		probe(o, "sequence-flow-elements-reordered-in-the-document", docVaried)
+	}
 	out.Viol = o.Viol
 	out.Steps = res.Steps
 	out.Switches = res.Switches
